@@ -41,6 +41,9 @@ theorem sameButCounters_apply (s t : State) (a : Act) (h : SameButCounters s t) 
   | disc =>
     simp only [apply, discard]
     split <;> simp [SameButCounters]
+  | notify =>
+    simp only [apply, notify]
+    split <;> simp [SameButCounters]
   | run =>
     simp only [apply, runStep]
     split
